@@ -100,6 +100,10 @@ structure St where
   dev : Option Nat := none       -- the game mode is running and its devices point into this player's dictionary
   locs : List Loc := []          -- device-local state, one entry per device (meaningful while `dev ≠ none`)
   machine : Vars := []           -- machine variables (not owned by any player)
+  hold : Bool := false           -- a stop of the game mode was requested and its `mode_<n>_stopping` queue event is held
+                                 -- by some handler (an outro): the mode is still active, its devices still bound
+  ending : Bool := false         -- a ball end was requested behind the held stop: `ModeController._ball_ending` waits
+                                 -- for the mode's stop to finish before the ball ends
   deriving Repr
 
 inductive Op
@@ -120,6 +124,9 @@ inductive Op
   | drainPre                         -- a drain during which a start request arrives after the ball ended but before the
                                      -- turn ended: the mode restarts bound to the player who is still up, and stops
                                      -- again when that turn ends
+  | modeStopHold                     -- a stop request for the game mode with a handler holding `mode_<n>_stopping`
+  | release                          -- the held `mode_<n>_stopping` queue event is released: the stop finishes, and a
+                                     -- ball end that was waiting behind it takes place
   deriving DecidableEq, Repr
 
 /-- `Player.__init__`: index, number, the configured initial values, score — no events yet -/
@@ -191,11 +198,24 @@ def elapse (devs : List Dev) : Nat → List Loc → Vars → List Loc × Vars
 current player when there is no such player (IndexError is only logged) -/
 def targetOf (s : St) (p : Nat) : Nat := if p < s.players.length then p else s.cur
 
+/-- the ball ends (the game mode is not in a held stop): the mode stops, the pointer is dropped; extra ball → same player
+again; else next player / next ball / game over -/
+def drainStep (c : Cfg) (s : St) : St × List Ev :=
+    if s.players = [] then (s, []) else
+    let s0 := { s with dev := none }             -- ball ending: the mode stops, the pointer is dropped
+    let me := varsOf s0 s0.cur
+    if intVar me "extra_balls" ≠ 0 then
+      let r := setOn s0 s0.cur "extra_balls" (.int (intVar me "extra_balls" - 1))
+      (ballStart c r.1 s0.cur, r.2)                -- shoot again: same player, `ball` not incremented
+    else if intVar me "ball" ≥ c.ballsPerGame ∧ s0.cur + 1 = s0.players.length then
+      ({ s with players := [], cur := 0, dev := none }, [])
+    else turnStart c s0 (if s0.cur + 1 < s0.players.length then s0.cur + 1 else 0)
+
 def step (c : Cfg) (s : St) : Op → St × List Ev
   | .startGame =>
     if s.players ≠ [] then (s, []) else
     let m := newVars c 0
-    let r := turnStart c { s with players := [m], cur := 0, dev := none } 0
+    let r := turnStart c { s with players := [m], cur := 0, dev := none, hold := false, ending := false } 0
     (r.1, broadcast m 1 ++ r.2)
   | .addPlayer =>
     let n := s.players.length
@@ -249,23 +269,26 @@ def step (c : Cfg) (s : St) : Op → St × List Ev
            | _, _ => m)
         | _, _ => m) }, [])
   | .drain =>
-    if s.players = [] then (s, []) else
-    let s0 := { s with dev := none }             -- ball ending: the mode stops, the pointer is dropped
-    let me := varsOf s0 s0.cur
-    if intVar me "extra_balls" ≠ 0 then
-      let r := setOn s0 s0.cur "extra_balls" (.int (intVar me "extra_balls" - 1))
-      (ballStart c r.1 s0.cur, r.2)                -- shoot again: same player, `ball` not incremented
-    else if intVar me "ball" ≥ c.ballsPerGame ∧ s0.cur + 1 = s0.players.length then
-      ({ s with players := [], cur := 0, dev := none }, [])
-    else turnStart c s0 (if s0.cur + 1 < s0.players.length then s0.cur + 1 else 0)
-  | .endGame => ({ s with players := [], cur := 0, dev := none }, [])
-  | .modeStop => ({ s with dev := none }, [])
+    -- behind a held stop `_ball_ending` registers a callback with the stopping mode and waits: nothing else happens
+    if s.hold then ({ s with ending := true }, []) else drainStep c s
+  | .endGame => ({ s with players := [], cur := 0, dev := none, hold := false, ending := false }, [])
+  | .modeStop => if s.hold then (s, []) else ({ s with dev := none }, [])     -- `Mode.stop` while stopping: nothing
+  | .modeStopHold =>
+    match s.dev with
+    | none => (s, [])                              -- not active: `Mode.stop` returns at once
+    | some _ => ({ s with hold := true }, [])      -- stopping, but everything of the mode is still in place
+  | .release =>
+    if s.hold then
+      let s1 := { s with hold := false, ending := false, dev := none }     -- `_stopped` / `_finish_stop`: devices removed
+      if s.ending then drainStep c s1 else (s1, [])                       -- then the callbacks: the ball end goes on
+    else (s, [])
   | .modeStart =>
     if s.players = [] then (s, [])                 -- no game: refused
     else match s.dev with
       | some _ => (s, [])                          -- already active
       | none => (modeStart c s s.cur, [])
   | .drainPre =>
+    if s.hold then ({ s with ending := true }, []) else
     if s.players = [] then (s, []) else
     let s0 := modeStart c { s with dev := none } s.cur     -- stopped at ball end, restarted for the same player
     let me := varsOf s0 s0.cur
@@ -504,6 +527,8 @@ def parseOp : List String → Option Op
   | ["modestop"] => some .modeStop
   | ["modestart"] => some .modeStart
   | ["drainpre"] => some .drainPre
+  | ["modestophold"] => some .modeStopHold
+  | ["release"] => some .release
   | _ => none
 
 /-- the harness lets one time unit pass after every request -/
